@@ -599,20 +599,6 @@ def fmt_num(x):
     return str(x)
 
 
-TRACE = {"empty_sum": 0}
-
-
-def data_classes(ds, q):
-    """Classes decided on (dataset, query) by evaluating the Spec: `empty-sum` = some SUM is taken over a group without
-    any numeric value (finding C01-empty-sum-negative-zero: the engine prints -0 for it)."""
-    TRACE["empty_sum"] = 0
-    try:
-        spec_answer(ds, q)
-    except Exception:        # noqa
-        pass
-    return {"empty-sum"} if TRACE["empty_sum"] else set()
-
-
 def aggregate(rows, q):
     aggs = [p for p in q["proj"] if p != "*" and p[0] != "VAR"] if q["proj"] != "*" else []
     if not aggs and not q["group_by"]:
@@ -637,8 +623,6 @@ def aggregate(rows, q):
             val = None
             if kind == "SUM":
                 val = fmt_num(sum(vals))
-                if not vals:
-                    TRACE["empty_sum"] += 1
             elif kind == "MIN" and vals:
                 val = fmt_num(min(vals))
             elif kind == "MAX" and vals:
